@@ -86,8 +86,8 @@ Definition is_cont (c : call) : bool :=
 Definition refuse (s : state) (t : nat) (c : call) : state :=
   let s1 := release s in
   if is_cont c then
-    (* Continuous._requested: undo; publishing on the closed item raises RuntimeError instead *)
-    if cont_closed s1 then finish_call (unregister_cont s1 t) t c RRuntimeError
+    (* Continuous._requested: undo; once the object is closed the flag is no longer published *)
+    if cont_closed s1 then finish_call (unregister_cont s1 t) t c RMachineError
     else finish_call (cont_disable (unregister_cont s1 t)) t c RMachineError
   else finish_call s1 t c RMachineError.
 
@@ -132,7 +132,11 @@ Definition close_enter_closed (s : state) (t : nat) : state :=
   set_pc (log_hook (set_st_fsm s Closed) HClose None None) t CClose C_G3.
 
 (** Continuous.close() *)
-Definition close_cont (s : state) : state := publish (set_cont_closed s true) PEndCont.
+(** Continuous.close: requests still waiting for their turn will be refused: the flag goes off first *)
+Definition cont_off_events (s : state) : list event :=
+  match cont_plugins s with [] => [] | _ :: _ => [EvPub (PCont false)] end.
+Definition close_cont (s : state) : state :=
+  publish (set_cont_closed (set_trace s (cont_off_events s ++ trace s)) true) PEndCont.
 
 Definition close_trigger (s : state) (t : nat) : state :=
   match st_fsm s with
